@@ -31,6 +31,15 @@
  *                            "rst" | "BADFRAMES.."
  *        C<n>  peer SETTINGS_HEADER_TABLE_SIZE (h2_parse_frame_settings)   -> "c"
  *        F<n>  peer SETTINGS_MAX_FRAME_SIZE                                 -> "f"
+ *   req <maxfield> <item>...   request direction through h2_parse_frames() / h2_recv_continuation() /
+ *                            h2_recv_headers() (served, trailers, refused, discarded, after GOAWAY):
+ *        H<id>/<es>/<pad|->/<dep|->/<frag>+<frag>../<keep>   HEADERS (+CONTINUATION per extra fragment),
+ *              pad = padding octets (PADDED), dep = stream dependency (PRIORITY); lower-case h = every
+ *              frame in its own read-queue chunk
+ *              -> "new:<id>;v=<view>" | "trl:<id>" | "disc:<id>:<rst code|->" | "defer" | "none", plus
+ *                 "!<code>" once an error GOAWAY was sent (ends the line), "~" after a graceful one
+ *        A  SETTINGS ack from the peer -> "a";  G  graceful GOAWAY -> "g";  X<id>  stream finished -> "x"
+ *        last tokens: decoder table "T..", "cid=<n>", "nd=<n>" (discarded), "nr=<n>" (refused)
  */
 #include "first.h"
 #include "harness_common.h"
@@ -639,6 +648,130 @@ static void op_resp(void) {
     con_end();
 }
 
+
+/* ------------------------------------------------ request direction glue */
+
+static request_st *find_stream(h2con *h2c, uint32_t id) {
+    for (uint32_t i = 0; i < h2c->rused; ++i)
+        if (h2c->r[i]->x.h2.id == id) return h2c->r[i];
+    return NULL;
+}
+
+static void put_frame_hdr(unsigned char *p, uint32_t len, int type, int flags, uint32_t id) {
+    p[0] = (unsigned char)(len >> 16); p[1] = (unsigned char)(len >> 8); p[2] = (unsigned char)len;
+    p[3] = (unsigned char)type; p[4] = (unsigned char)flags;
+    p[5] = (unsigned char)(id >> 24); p[6] = (unsigned char)(id >> 16); p[7] = (unsigned char)(id >> 8); p[8] = (unsigned char)id;
+}
+
+static void put_view(const request_st *r) {
+    printf(";v=%d|%d|", r->http_status, (int)r->http_method);
+    ltv_puthex(r->target.ptr, buffer_clen(&r->target)); fputc('|', stdout);
+    if (r->http_host) ltv_puthex(r->http_host->ptr, buffer_clen(r->http_host)); else fputc('~', stdout);
+    printf("|%lld|", (long long)r->reqbody_length);
+    if (0 == r->rqst_headers.used) fputc('-', stdout);
+    for (uint32_t i = 0; i < r->rqst_headers.used; ++i) {
+        const data_string * const ds = (data_string *)r->rqst_headers.data[i];
+        if (i) fputc(',', stdout);
+        printf("%d.", ds->ext);
+        ltv_puthex(ds->key.ptr, buffer_clen(&ds->key)); fputc('=', stdout);
+        ltv_puthex(ds->value.ptr, buffer_clen(&ds->value));
+    }
+}
+
+static void op_req(void) {
+    con_begin((uint32_t)strtoul(hl_tok[1], NULL, 10));
+    h2con * const h2c = (h2con *)g_con.hx;
+    int ntokout = 0;
+    for (int k = 2; k < hl_ntok; ++k) {
+        char *it = hl_tok[k];
+        if (it[0] == 'A') {
+            static const unsigned char ack[9] = { 0, 0, 0, H2_FTYPE_SETTINGS, H2_FLAG_ACK, 0, 0, 0, 0 };
+            chunkqueue_append_mem(g_con.read_queue, (const char *)ack, 9);
+            h2_parse_frames(&g_con);
+            SEP(); fputs("a", stdout);
+        }
+        else if (it[0] == 'G') {
+            h2_send_goaway(&g_con, H2_E_NO_ERROR);
+            SEP(); fputs("g", stdout);
+        }
+        else if (it[0] == 'X') {
+            request_st *r = find_stream(h2c, (uint32_t)strtoul(it + 1, NULL, 10));
+            if (r) { r->http_status = 0; h2_retire_stream(r, &g_con); }
+            SEP(); fputs("x", stdout);
+        }
+        else if (it[0] == 'H' || it[0] == 'h') {
+            /* H<id>/<es>/<pad>/<dep>/<frags>/<keep> */
+            char *f[6]; int nf = 0; char *save = NULL;
+            for (char *t = strtok_r(it + 1, "/", &save); t && nf < 6; t = strtok_r(NULL, "/", &save)) f[nf++] = t;
+            if (nf != 6) { SEP(); fputs("bad-op", stdout); break; }
+            const uint32_t id = (uint32_t)strtoul(f[0], NULL, 10);
+            const int es = atoi(f[1]);
+            const int padded = f[2][0] != '-', prio = f[3][0] != '-';
+            const uint32_t pad = padded ? (uint32_t)atoi(f[2]) : 0;
+            const uint32_t dep = prio ? (uint32_t)strtoul(f[3], NULL, 10) : 0;
+            const int keep = atoi(f[5]);
+            /* fragments */
+            unsigned char *frag[64]; size_t fragl[64]; int nfrag = 0; char *s2 = NULL;
+            for (char *t = strtok_r(f[4], "+", &s2); t && nfrag < 64; t = strtok_r(NULL, "+", &s2))
+                frag[nfrag++] = ltv_unhex(t, &fragl[nfrag]);
+            if (0 == nfrag) { SEP(); fputs("bad-op", stdout); break; }
+            const int had = NULL != find_stream(h2c, id);
+            const uint32_t nd0 = h2c->n_discarded_headers;
+            const int ga0 = h2c->sent_goaway;
+            for (int j = 0; j < nfrag; ++j) {
+                size_t pl = fragl[j] + (j == 0 ? (padded ? 1 + pad : 0) + (prio ? 5 : 0) : 0);
+                unsigned char *fr = calloc(1, 9 + pl + 1), *p = fr + 9;
+                int fl = (j == nfrag - 1) ? H2_FLAG_END_HEADERS : 0;
+                if (j == 0) {
+                    fl |= (es ? H2_FLAG_END_STREAM : 0) | (padded ? H2_FLAG_PADDED : 0) | (prio ? H2_FLAG_PRIORITY : 0);
+                    if (padded) *p++ = (unsigned char)pad;
+                    if (prio) { p[0] = (unsigned char)(dep >> 24); p[1] = (unsigned char)(dep >> 16);
+                                p[2] = (unsigned char)(dep >> 8); p[3] = (unsigned char)dep; p[4] = 15; p += 5; }
+                }
+                memcpy(p, frag[j], fragl[j]);
+                put_frame_hdr(fr, (uint32_t)pl, j == 0 ? H2_FTYPE_HEADERS : H2_FTYPE_CONTINUATION, fl, id);
+                if (it[0] == 'h' || j == 0) chunkqueue_append_mem_min(g_con.read_queue, (char *)fr, 9 + pl);
+                else chunkqueue_append_mem(g_con.read_queue, (char *)fr, 9 + pl);
+                free(fr);
+                free(frag[j]);
+            }
+            h2_parse_frames(&g_con);
+            const int deferred = chunkqueue_length(g_con.read_queue) >= 9;
+            if (deferred) chunkqueue_reset(g_con.read_queue);
+            /* RST_STREAM frames lighttpd queued */
+            size_t wl; unsigned char *w = wq_take(&wl);
+            int rstcode = -1;
+            for (size_t o = 0; o + 9 <= wl; ) {
+                const uint32_t fl = ((uint32_t)w[o] << 16) | ((uint32_t)w[o+1] << 8) | w[o+2];
+                if (w[o+3] == H2_FTYPE_RST_STREAM && fl == 4 && o + 13 <= wl && rstcode < 0)
+                    rstcode = (int)(((uint32_t)w[o+9] << 24) | ((uint32_t)w[o+10] << 16) | ((uint32_t)w[o+11] << 8) | w[o+12]);
+                o += 9 + fl;
+            }
+            free(w);
+            request_st *r = find_stream(h2c, id);
+            SEP();
+            if (deferred && h2c->sent_goaway <= 0) fputs("defer", stdout);
+            else if (r && !had) {
+                printf("new:%u", id);
+                put_view(r);
+                if (!keep) { r->http_status = 0; h2_retire_stream(r, &g_con); }
+            }
+            else if (h2c->n_discarded_headers != nd0) {
+                if (rstcode >= 0) printf("disc:%u:%d", id, rstcode); else printf("disc:%u:-", id);
+            }
+            else if (had) printf("trl:%u", id);      /* trailers decoded (with or without HPACK error) */
+            else fputs("none", stdout);
+            if (h2c->sent_goaway > 0) { printf("!%d", h2c->sent_goaway); break; }
+            if (h2c->sent_goaway < 0 && 0 == ga0) fputc('~', stdout);
+        }
+        else { SEP(); fputs("bad-op", stdout); break; }
+    }
+    SEP();
+    dump_table(&h2c->decoder);
+    printf(" cid=%u nd=%u nr=%u\n", h2c->h2_cid, (unsigned)h2c->n_discarded_headers, (unsigned)h2c->n_refused_stream);
+    con_end();
+}
+
 /* ------------------------------------------------------------------ main */
 
 int main(void) {
@@ -724,6 +857,7 @@ int main(void) {
             free(enc); free(back); free(in);
         }
         else if (0 == strcmp(op, "resp") && hl_ntok >= 2) op_resp();
+        else if (0 == strcmp(op, "req") && hl_ntok >= 2) op_req();
         else if (0 == strcmp(op, "lsenc")) op_lsenc();
         else if (0 == strcmp(op, "ngenc")) op_ngenc();
         else if (0 == strcmp(op, "ngdec")) op_ngdec();
